@@ -112,7 +112,7 @@ impl Skel {
             };
             edges.push((*h, *t, cond));
         }
-        FnSpec { address: 0x4000, blocks, edges, entry: Some(self.entry), exit: Some(self.exit), gaps: self.gaps.clone(), index: None }
+        FnSpec { address: 0x4000, blocks, edges, entry: Some(self.entry), exit: Some(self.exit), gaps: self.gaps.clone(), index: None, swaps: Vec::new() }
     }
 }
 
